@@ -594,6 +594,8 @@ func (x *otrans) stmts(list []ast.Stmt, en oenv, fc *ofctx, k okont) string {
 		return x.stmts([]ast.Stmt{oSwitchToIf(s)}, en, fc, next)
 	case *ast.DeferStmt:
 		if id, ok := s.Call.Fun.(*ast.Ident); ok && x.u.SkipDefers[id.Name] {
+			covPat(covNS(x.u.Namespace), "SkipDefers: "+id.Name)
+			covSkip(covNS(x.u.Namespace)+"."+x.t.Lean, s, "SkipDefers")
 			// releases a pooled object when the function returns: no effect on any value
 			for _, a := range s.Call.Args {
 				x.dropArg(a, en)
